@@ -31,6 +31,7 @@ Section Top.
     induction keys as [|k keys IH]; intros [|q qs] seen Hl Hc q0 Hq; cbn [length] in Hl; try lia; [destruct Hq|].
     cbn [check_queries] in Hc.
     destruct (negb (Nat.eqb (length k) kl)); [discriminate|].
+    destruct (negb (Nat.eqb (length (q_key q)) kl)); [discriminate|].
     destruct (find (fun s => bytes_eqb (q_key s) (q_key q)) seen) as [s|].
     - destruct (negb (bytes_eqb (q_bitmap s) (q_bitmap q)) || negb (bytes_eqb (q_value s) (q_value q))); [discriminate|].
       revert Hc. destruct (match q_bitmap q with 0%N :: _ => true | _ => false end); [discriminate|].
